@@ -11,6 +11,7 @@ import (
 	"os"
 	"regexp"
 	"runtime/debug"
+	"sort"
 	"strconv"
 	"strings"
 	"time"
@@ -32,6 +33,7 @@ const (
 	kRet
 	kBlock
 	kAlt
+	kNil // a statement whose `Stmt` oneof is not set (a module read from .pb / .textpb / JSON can hold one)
 )
 
 type stmt struct {
@@ -159,6 +161,8 @@ func toProto(ss []stmt) []*sysl.Statement {
 				alt.Choice = append(alt.Choice, &sysl.Alt_Choice{Cond: "c", Stmt: toProto(c)})
 			}
 			out = append(out, &sysl.Statement{Stmt: &sysl.Statement_Alt{Alt: alt}})
+		case kNil:
+			out = append(out, &sysl.Statement{})
 		}
 	}
 	return out
@@ -505,6 +509,24 @@ func callsOf(ss []stmt, out *[][2]int) {
 
 type danglingErr struct{}
 
+// refNilReached: the last reference walk passed a statement without type: the run may also end in an error
+var refNilReached bool
+
+// hasNil: does the statement list hold (at any depth) a statement without type
+func hasNil(ss []stmt) bool {
+	for _, s := range ss {
+		if s.K == kNil || hasNil(s.Body) {
+			return true
+		}
+		for _, c := range s.Alts {
+			if hasNil(c) {
+				return true
+			}
+		}
+	}
+	return false
+}
+
 // refVisits counts the endpoint visits of the last reference walk (drawn or not): the real generator labels at most
 // one call per visit, which bounds the watchdog
 var refVisits int
@@ -536,11 +558,26 @@ func refWalk(tc *caseT, cut map[string]bool, inprog map[string]bool, from, a, e 
 		return
 	}
 	inprog[k] = true
-	var cs [][2]int
-	callsOf(ep.Body, &cs)
-	for _, c := range cs {
-		refWalk(tc, cut, inprog, a, c[0], c[1], out, limit)
+	// the statements of an expanded endpoint in source order: a call is followed; a statement without a type draws nothing:
+	// the property lets the generator skip it or end the run in an error (refNilReached), it must not crash
+	var walk func(ss []stmt)
+	walk = func(ss []stmt) {
+		for _, s := range ss {
+			switch s.K {
+			case kCall:
+				refWalk(tc, cut, inprog, a, s.A, s.E, out, limit)
+			case kBlock:
+				walk(s.Body)
+			case kAlt:
+				for _, c := range s.Alts {
+					walk(c)
+				}
+			case kNil:
+				refNilReached = true
+			}
+		}
 	}
+	walk(ep.Body)
 	delete(inprog, k)
 }
 
@@ -548,6 +585,7 @@ func refWalk(tc *caseT, cut map[string]bool, inprog map[string]bool, from, a, e 
 // dangling target); big=true when the walk exceeds limit arrows
 func refDiagram(tc *caseT, limit int) (arrows []arrowT, wantErr bool, big bool) {
 	refVisits = 0
+	refNilReached = false
 	defer func() {
 		if x := recover(); x != nil {
 			switch x.(type) {
@@ -629,6 +667,7 @@ func judge(c *common.Ctx, tc *caseT) judged {
 	if big {
 		return judged{outcome: "big"}
 	}
+	nilReached := refNilReached
 	// the real generator labels one call per visited call statement: more than the reference walk visits (plus slack)
 	// means it expands what is already in progress; stopping there keeps the recursion shallow enough for the stack
 	limit := refVisits + 64
@@ -645,11 +684,14 @@ func judge(c *common.Ctx, tc *caseT) judged {
 		if strings.Contains(r.panicMsg, "not found") {
 			k = "panic:missing-target"
 		}
+		if strings.Contains(r.panicMsg, "Unrecognised statement") {
+			k = "panic:statement-without-type"
+		}
 		c.Fail(k, "GenerateSequenceDiag panics instead of returning a diagram or an error: "+r.panicMsg, tc)
 		return judged{obs: "ObsPanic", outcome: "panic"}
 	case r.err != nil:
-		if !wantErr {
-			c.Fail("spurious-error", "GenerateSequenceDiag returns an error although every start and call target exists: "+r.err.Error(), tc)
+		if !wantErr && !nilReached {
+			c.Fail("spurious-error", "GenerateSequenceDiag returns an error although every start and call target exists and every visited statement has a type: "+r.err.Error(), tc)
 		}
 		return judged{obs: "ObsErr", outcome: "err"}
 	}
@@ -727,6 +769,20 @@ func judgeText(c *common.Ctx, apps []appT, text string, want []arrowT, wantErr b
 		case "section":
 			if len(stack) != 0 {
 				c.Fail("block-not-closed", "a new section starts inside an open block", tc)
+			}
+			// several start entries: activations and deactivations pair up within every section
+			var still []string
+			for al, n := range active {
+				if n != 0 {
+					still = append(still, al)
+				}
+			}
+			sort.Strings(still)
+			if len(still) > 0 {
+				c.Fail("unbalanced-activation:section", fmt.Sprintf("section %q starts while %s is still active (%d)", e.lbl, still[0], active[still[0]]), tc)
+				for _, al := range still {
+					active[al] = 0
+				}
 			}
 		}
 	}
@@ -849,6 +905,8 @@ func gStmts(ss []stmt) string {
 				cs = append(cs, gStmts(c))
 			}
 			p = append(p, "Al "+common.GList(cs))
+		case kNil:
+			p = append(p, "Ni")
 		}
 	}
 	return common.GList(p)
@@ -892,6 +950,7 @@ type genOpts struct {
 	dangling                  bool
 	patterns                  bool
 	hidden                    bool
+	nils                      bool // statements without type
 }
 
 func genStmts(r *common.Rng, o *genOpts, depth int, appEps []int) []stmt {
@@ -900,6 +959,8 @@ func genStmts(r *common.Rng, o *genOpts, depth int, appEps []int) []stmt {
 	for i := 0; i < n; i++ {
 		k := r.Intn(14)
 		switch {
+		case o.nils && r.Chance(1, 10):
+			out = append(out, stmt{K: kNil})
 		case k < 6:
 			a := r.Intn(len(appEps))
 			e := r.Intn(appEps[a])
@@ -993,6 +1054,21 @@ func genModule(r *common.Rng, o *genOpts) *caseT {
 		cb := &tc.Apps[ca].Eps[ce].Body
 		*cb = append(*cb, last)
 	}
+	if r.Chance(1, 3) {
+		// re-entrancy through DIFFERENT endpoints of one application: X.Ei -> Y.Ej -> X.Ek -> Y.Ej (on the path: shown, not
+		// expanded) and -> X.Ei (on the path); X.Ek itself is expanded although X is already being expanded - the mark is per
+		// (application, endpoint), a counter that is released on the way back
+		xa, xe := pick()
+		ya, ye := pick()
+		xk := (xe + 1) % appEps[xa]
+		pre := func(a, e int, ss ...stmt) {
+			b := &tc.Apps[a].Eps[e].Body
+			*b = append(append([]stmt{}, ss...), *b...)
+		}
+		pre(xa, xk, stmt{K: kCall, A: ya, E: ye}, stmt{K: kCall, A: xa, E: xe})
+		pre(ya, ye, stmt{K: kCall, A: xa, E: xk})
+		pre(xa, xe, stmt{K: kCall, A: ya, E: ye}, stmt{K: kCall, A: ya, E: ye})
+	}
 	return tc
 }
 
@@ -1000,6 +1076,7 @@ func genCase(r *common.Rng, hostile bool) *caseT {
 	o := &genOpts{napps: 1 + r.Intn(4), neps: 1 + r.Intn(3), depth: 2, width: 3, patterns: r.Chance(1, 2), hidden: r.Chance(1, 3)}
 	if hostile {
 		o.dangling = r.Chance(1, 2)
+		o.nils = r.Chance(1, 3)
 		o.napps = 1 + r.Intn(6)
 		o.depth = 1 + r.Intn(3)
 		o.width = 1 + r.Intn(4)
@@ -1106,7 +1183,7 @@ func main() {
 	worker = common.NewWorker()
 	defer worker.Close()
 	classifyPayloads()
-	c.Res.Rule = "each case = (module of 1-6 apps x 1-3 endpoints whose statements are calls / actions / returns with 10 payload spellings / opt-loop-group blocks / alternatives nested up to 3 deep, patterns human-cron-ui-db-..., hidden endpoints; start entries; blackboxes; group-by option); mostly-valid stream + hostile stream (dangling call targets, missing starts, no starts) + the shapes `callee called twice`, `alt with calls ending its choices as last statement`, `return inside a nested block`; thorough adds every module over 3 endpoints x <=2 statements; distinct = distinct abstract case; non-trivial = the diagram has at least 3 call arrows, or the run ends in an error"
+	c.Res.Rule = "each case = (module of 1-6 apps x 1-3 endpoints whose statements are calls / actions / returns with 10 payload spellings / opt-loop-group blocks / alternatives nested up to 3 deep, patterns human-cron-ui-db-..., hidden endpoints; start entries; blackboxes; group-by option); mostly-valid stream + hostile stream (dangling call targets, missing starts, no starts) + the shapes `callee called twice`, `alt with calls ending its choices as last statement`, `return inside a nested block`, `re-entrancy through different endpoints of one application`; a `sections` stream (up to four endpoints as start entries in one diagram, one of them twice now and then); statements without type (protobuf oneof unset) in a third of the hostile modules; thorough adds every module over 3 endpoints x <=2 statements; distinct = distinct abstract case; non-trivial = the diagram has at least 3 call arrows, or the run ends in an error"
 	if c.Replay != "" {
 		var rp replayT
 		if err := common.LoadReplay(c.Replay, &rp); err != nil {
@@ -1130,7 +1207,7 @@ func main() {
 	header := `From Coq Require Import List NArith Bool. Import ListNotations.
 Require Import Verif.Seq.SeqModel Verif.Seq.Run Verif.Gen.SeqShape Verif.Base.Harness.
 Local Open Scope N_scope.
-Notation C := Call. Notation Ac := Action. Notation D := Dots. Notation B := Block. Notation Al := Alt. Notation W := World.
+Notation C := Call. Notation Ac := Action. Notation D := Dots. Notation B := Block. Notation Al := Alt. Notation W := World. Notation Ni := Nil.
 Definition Re := Ret RetEmpty. Definition Rp := Ret RetPrim. Definition Rs := Ret RetShown.
 Definition EP h b := {| ep_hidden := h; ep_body := b |}. Definition AP p e := {| app_pats := p; app_eps := e |}.
 Definition BB a e c l := {| bb_key := (a,e); bb_cut := c; bb_clen := l |}.`
@@ -1163,6 +1240,18 @@ Definition BB a e c l := {| bb_key := (a,e); bb_cut := c; bb_clen := l |}.`
 		if len(tc.Starts) > 1 {
 			c.Hist("with:several-starts")
 		}
+		for i := range tc.Apps {
+			for k := range tc.Apps[i].Eps {
+				if hasNil(tc.Apps[i].Eps[k].Body) {
+					c.Hist("with:statement-without-type")
+					if j.outcome == "ok" {
+						c.Hist("with:statement-without-type:not-reached")
+					}
+					goto histDone
+				}
+			}
+		}
+	histDone:
 		if tc.GroupBy {
 			c.Hist("with:groupby")
 		}
@@ -1192,6 +1281,27 @@ Definition BB a e c l := {| bb_key := (a,e); bb_cut := c; bb_clen := l |}.`
 			one(tc, "hostile", true)
 		} else {
 			one(tc, "valid", true)
+		}
+		// several sections in one diagram: up to four endpoints of the module as start entries, in random order, now and
+		// then one of them twice (-s repeated)
+		if !hostile && i%7 == 1 {
+			t3 := *tc
+			t3.Starts = nil
+			for a := range tc.Apps {
+				for e := range tc.Apps[a].Eps {
+					if len(t3.Starts) < 4 {
+						t3.Starts = append(t3.Starts, [2]int{a, e})
+					}
+				}
+			}
+			if c.Rng.Chance(1, 3) {
+				t3.Starts = append(t3.Starts, t3.Starts[c.Rng.Intn(len(t3.Starts))])
+			}
+			for j := len(t3.Starts) - 1; j > 0; j-- {
+				k := c.Rng.Intn(j + 1)
+				t3.Starts[j], t3.Starts[k] = t3.Starts[k], t3.Starts[j]
+			}
+			one(&t3, "sections", true)
 		}
 		// every endpoint as the start (up to 3 more)
 		if !hostile && i%3 == 0 {
@@ -1249,6 +1359,10 @@ func replayNew(c *common.Ctx, rp *replayT) {
 			c.Fail(fmtPanicKey(rep.PanicMsg), "FormatParser panics: "+rep.PanicMsg, rp)
 		}
 	case "cli":
+		if rp.Cli.Stdin != nil {
+			fmt.Printf("replay cli: sysl %s < module.pb, the compiled module being %s\n", strings.Join(rp.Cli.Args, " "), gCase(rp.Cli.Stdin, ""))
+			return
+		}
 		fmt.Printf("replay cli: sysl %s m.sysl with Project%s / Project <- E00%s; source:\n%s\n", strings.Join(rp.Cli.Args, " "), rp.Cli.ProjAttr, rp.Cli.EpAttr, fmt.Sprintf(cliSource, rp.Cli.ProjAttr, rp.Cli.EpAttr))
 	case "util":
 		fmt.Printf("replay util: %+v\n", *rp.Util)
@@ -1285,6 +1399,17 @@ func corpus() []*caseT {
 		{Apps: []appT{{Eps: []endpointT{{Body: []stmt{call(1, 0), {K: kAction}}}, {Body: []stmt{call(1, 0), call(0, 0), ret(2)}}}}, {Eps: []endpointT{{Body: []stmt{call(0, 1), ret(2)}}}}}, Starts: [][2]int{{0, 0}}},
 		// the same endpoint reached twice on different paths is expanded twice (the mark is released), a self call is not
 		{Apps: []appT{{Eps: []endpointT{{Body: []stmt{call(0, 1), call(1, 0), call(0, 1)}}, {Body: []stmt{call(1, 0), call(0, 1)}}}}, {Eps: []endpointT{{Body: []stmt{call(0, 1)}}}}}, Starts: [][2]int{{0, 0}, {0, 1}}},
+		// a statement without type: in the start endpoint; nested in a block of a callee; below a blackbox (not reached: harmless);
+		// behind a call to a missing application (the error of the call comes first)
+		{Apps: []appT{{Eps: []endpointT{{Body: []stmt{{K: kAction}, {K: kNil}}}}}}, Starts: [][2]int{{0, 0}}},
+		{Apps: []appT{{Eps: []endpointT{{Body: []stmt{call(1, 0), ret(2)}}}}, {Eps: []endpointT{{Body: []stmt{{K: kAction}, {K: kBlock, BK: 0, Body: []stmt{{K: kNil}}}}}}}}, Starts: [][2]int{{0, 0}}},
+		{Apps: []appT{{Eps: []endpointT{{Body: []stmt{call(1, 0), ret(2)}}}}, {Eps: []endpointT{{Body: []stmt{{K: kAlt, Alts: [][]stmt{{{K: kAction}}, {{K: kNil}}}}}}}}}, Starts: [][2]int{{0, 0}}, BBs: []bbT{{A: 1, E: 0, Cut: true, CLen: 2}}},
+		{Apps: []appT{{Eps: []endpointT{{Body: []stmt{call(3, 0), {K: kNil}}}}}}, Starts: [][2]int{{0, 0}}},
+		// GetReturnPayload looks past a statement without type: the black-boxed callee's `return` behind it still decides
+		// that the call is answered (activate, note, return arrow, deactivate)
+		{Apps: []appT{{Eps: []endpointT{{Body: []stmt{call(1, 0), {K: kAction}}}}}, {Eps: []endpointT{{Body: []stmt{{K: kNil}, {K: kBlock, BK: 1, Body: []stmt{{K: kNil}, ret(2)}}}}}}}, Starts: [][2]int{{0, 0}}, BBs: []bbT{{A: 1, E: 0, Cut: true, CLen: 2}}},
+		// three sections; the second start is called by the first and calls it back; one start twice
+		{Apps: []appT{{Eps: []endpointT{{Body: []stmt{call(1, 0), call(2, 0), ret(2)}}}}, {Eps: []endpointT{{Body: []stmt{call(0, 0), {K: kAction}}}}}, {Eps: []endpointT{{Body: []stmt{{K: kAction}}}}}}, Starts: [][2]int{{0, 0}, {1, 0}, {2, 0}, {0, 0}}},
 		// return inside nested blocks decides the payload
 		{Apps: []appT{{Eps: []endpointT{{Body: []stmt{call(1, 0)}}}}, {Eps: []endpointT{{Body: []stmt{{K: kBlock, BK: 0, Body: []stmt{{K: kBlock, BK: 1, Body: []stmt{ret(2)}}}}, call(0, 0)}}}}}, Starts: [][2]int{{0, 0}}},
 	}
